@@ -287,6 +287,22 @@ func TestBoundarySweep(t *testing.T) {
 				e.Fail("C10/collision", old, "bounds id collides with %+v", old)
 				return
 			}
+			if bo.Ref() != 0 || bo.Version() != 0 {
+				e.Fail("C10/object-roundtrip", "bounds", "bounds object id decodes to ref %d version %d, want 0 and 0", bo.Ref(), bo.Version())
+				return
+			}
+			if s := bo.String(); s != "bounds/0:-" {
+				e.Fail("C10/object-string", "bounds", "bounds object id prints as %q, want \"bounds/0:-\"", s)
+				return
+			}
+			if back, err := osm.ParseObjectID(bo.String()); err != nil || back != bo {
+				e.Fail("C10/parse-roundtrip", "bounds", "ParseObjectID(%q) = %v, %v", bo.String(), back, err)
+				return
+			}
+			if (&osm.Bounds{MinLat: 1, MaxLat: 2, MinLon: 3, MaxLon: 4}).ObjectID() != bo {
+				e.Fail("C10/object-roundtrip", "bounds", "the object id of a bounds value depends on its content")
+				return
+			}
 			e.Sample(map[string]any{"refs": len(refs), "versions": len(vers), "ids": len(seen), "example": id3{osm.TypeRelation, maxRef, maxVer}})
 		})
 }
